@@ -110,6 +110,9 @@ impl Model {
         if self.q != rq || h.quotient.0.len() != h.quotient.1.len() {
             return Some(format!("pending unifications: real {:?} / {:?}, model {:?}", un(&h.quotient.0), un(&h.quotient.1), self.q));
         }
+        if h.is_strict() != self.q.is_empty() {
+            return Some(format!("is_strict() says {} but the pending pairs are {:?}", h.is_strict(), self.q));
+        }
         None
     }
     /// classes of the pending unifications; Some(conflict witness) if a class holds two labels
